@@ -395,11 +395,14 @@ def run(chk):
 
 def layered_fragments(levels):
     """A valid document whose fragments form a DAG with 2^levels spread paths: both fragments of a level spread both of the next."""
-    parts = ["{ o { ...L0a ...L0b } }"]
+    parts = ["{ o { ...L0a ...L0b } os { o { ...N0a ...N0b } } }"]
     for i in range(levels):
-        nxt = "...L%da ...L%db" % (i + 1, i + 1) if i + 1 < levels else "a"
-        parts.append("fragment L%da on Obj { a o { %s } }" % (i, nxt))
-        parts.append("fragment L%db on Obj { s o { %s } }" % (i, nxt))
+        last = i + 1 == levels
+        # spreads written directly in the fragment (L) and below a field (N)
+        parts.append("fragment L%da on Obj { a %s }" % (i, "" if last else "...L%da ...L%db" % (i + 1, i + 1)))
+        parts.append("fragment L%db on Obj { s %s }" % (i, "" if last else "...L%da ...L%db" % (i + 1, i + 1)))
+        parts.append("fragment N%da on Obj { a o { %s } }" % (i, "a" if last else "...N%da ...N%db" % (i + 1, i + 1)))
+        parts.append("fragment N%db on Obj { s o { %s } }" % (i, "a" if last else "...N%da ...N%db" % (i + 1, i + 1)))
     return "\n".join(parts)
 
 
@@ -422,8 +425,8 @@ def termination_probe(chk):
             try:
                 errs = r.get(timeout=120)
             except mp.TimeoutError:
-                chk.diverge("validate/does-not-terminate/fragment-dag", {"levels": levels, "definitions": 2 * levels + 1, "budget_s": 120, "text": text[:400]},
-                            "validation of a %d-definition document does not finish within 120 s" % (2 * levels + 1))
+                chk.diverge("validate/does-not-terminate/fragment-dag", {"levels": levels, "definitions": 4 * levels + 1, "budget_s": 120, "text": text[:400]},
+                            "validation of a %d-definition document does not finish within 120 s" % (4 * levels + 1))
                 pool.terminate()
                 return
             except Exception as e:
